@@ -216,6 +216,13 @@ def evaluate(scn: dict[str, Any], tag: str, only_plan: dict[str, Any] | None = N
         follow = scn.get("followup")  # optional edit between faulted and clean run
         revert_leg = not follow and scn.get("revert_leg", True)
         revert_colds: dict[str, Any] = {}
+        if revert_leg:
+            # fault-free control: the same continuation after the clean run. A difference here is a matter of
+            # the edit history alone (C02's subject), so the revert leg is not judged for this scenario.
+            ctrl = run_revert_leg(h, ca, snapshot(h, "fc"), pre_edit, revert_colds)
+            if ctrl is not None:
+                revert_leg = False
+                stats["revert_control_differs"] = 1
         for plan in plans:
             faults = plan_to_faults(plan, log)
             if faults is None:
@@ -504,7 +511,7 @@ def task(item: tuple[int, str]) -> dict[str, Any]:
         "evaluations": st["plans"],
         "sim_time_s": r["sim_time_s"],
         "faults": dict(st["fired"], **{"plan_" + a: b for a, b in st["by_kind"].items()}),
-        "probes": {"fault_landed_inside_write_protocol": st["landed_in_protocol"], "store_ops_in_clean_run": st["ops"],
+        "probes": {"fault_landed_inside_write_protocol": st["landed_in_protocol"], "store_ops_in_clean_run": st["ops"], "revert_leg_control_differs": st.get("revert_control_differs", 0),
                    "clock_" + scn["clock"]: 1, "store_" + scn["config"]["store"] + "_" + scn["config"]["format"]: 1},
         "nontrivial": [kit.digest(scn)] if st["landed_in_protocol"] else [],
         "interleavings": [],
